@@ -2,7 +2,7 @@
    Statements only; proofs in Move/MoveProofs.v. Quantified over every row of the regenerated table,
    both ASU conventions, every hkl, and every symmetry-consistent phase function on the sphere. *)
 From GV Require Import Sym.AsuDefs Sym.AsuProofs Sym.AsuLift Sym.AsuSpec Sym.OpProofs Move.Move Move.MoveProofs Move.Expand Move.ExpandProofs.
-From GV Require Import Sym.OpProofs Move.Reindex Move.PlusMinus Move.PlusMinusProofs.
+From GV Require Import Sym.OpProofs Move.Reindex Move.PlusMinus Move.PlusMinusProofs Move.ReindexRows.
 Local Open Scope Z_scope.
 
 (* the algebraic heart: phase transport composes, h.t1 + (hR1).t2 = h.(t1 + R1 t2) *)
@@ -160,3 +160,17 @@ Definition ex_columns : list column :=
 Example C13_plus_minus_example :
   ordinary ex_columns /\ pm_pairs ex_columns = [(5, 8); (7, 3); (9, 4)]%nat.
 Proof. split; [apply ordinary_by_test; vm_compute; reflexivity | vm_compute; reflexivity]. Qed.
+
+(* ------------------------------------------------------------------------------------------------------------
+   Which rows Mtz::reindex keeps (Move/ReindexRows.v): a reflection stays exactly when ALL THREE new indices are integral,
+   and then it carries exactly the index h P (the exactness hypothesis of C13_reindex_ops is what the code tests); the
+   list after re-indexing holds, in order, exactly the integral images. *)
+Theorem C13_reindex_row_rule : forall X h h',
+  reindex_row X h = Some h' <-> apply_to_hkl_nodiv X h = scale_v3 24 h'.
+Proof. exact reindex_row_kept. Qed.
+Print Assumptions C13_reindex_row_rule.
+
+Theorem C13_reindex_rows : forall X hs q, In q (reindex_rows X hs) <->
+  exists h, In h hs /\ apply_to_hkl_nodiv X h = scale_v3 24 q.
+Proof. exact reindex_rows_spec. Qed.
+Print Assumptions C13_reindex_rows.
